@@ -68,7 +68,15 @@ func runC17Cmd(c c17Cmd) error {
 
 func TestC17PlotCmd(t *testing.T) {
 	vh.Check(t, 40, 800, func(t *rapid.T) {
-		c := c17Cmd{Case: vgen.GenPlotCase(t, 300), Codec: rapid.SampledFrom([]string{"gob", "csv", "json"}).Draw(t, "codec")}
+		var c c17Cmd
+		if rapid.IntRange(0, 9).Draw(t, "long") == 0 {
+			// a series longer than the command's default threshold of 4000 (mostly one label, so that it stays long)
+			c = c17Cmd{Case: vgen.GenPlotCaseMin(t, 4100, 5000)}
+			c.Case.Threshold = rapid.SampledFrom([]int{0, 0, 4000, 4050}).Draw(t, "longthreshold")
+		} else {
+			c = c17Cmd{Case: vgen.GenPlotCase(t, 300)}
+		}
+		c.Codec = rapid.SampledFrom([]string{"gob", "csv", "json"}).Draw(t, "codec")
 		nt, _, labels := c.Case.Classify()
 		sig, _ := json.Marshal(c)
 		vh.Case("C17.plotcmd", fmt.Sprintf("%x", vh.Hash(string(sig))), nt, labels...)
